@@ -811,6 +811,11 @@ func (fx *FnExec) addrMods(addr ssa.Value, ms *modSet) {
 		case *types.Slice:
 			n, s := fx.elemHeapName(u.Elem())
 			ms.heaps[n] = s
+		case *types.Pointer:
+			if at, ok := u.Elem().Underlying().(*types.Array); ok {
+				n, s := fx.elemHeapName(at.Elem())
+				ms.heaps[n] = s
+			}
 		default:
 			fx.fail("store through index of %s", a.X.Type())
 		}
@@ -1367,6 +1372,15 @@ func (fx *FnExec) doAlloc(st *State, x *ssa.Alloc) {
 		fx.lvals[x] = &LVal{kind: "obj", obj: r, ty: et}
 		return
 	}
+	if at, ok := et.Underlying().(*types.Array); ok {
+		// heap arrays (e.g. varargs) live in the element heap like slice backing arrays
+		name, hs := fx.elemHeapName(at.Elem())
+		es := fx.e.sortOf(at.Elem())
+		zarr := App(fmt.Sprintf("((as const %s) %s)", ArrSort(SInt, es), fx.e.zero(at.Elem())), ArrSort(SInt, es))
+		fx.heapSet(st, name, Store(fx.heapGet(st, name, hs), r, zarr))
+		fx.lvals[x] = &LVal{kind: "harr", ptr: r, ty: et, ety: at.Elem()}
+		return
+	}
 	name, s := fx.pheapName(et)
 	fx.heapSet(st, name, Store(fx.heapGet(st, name, s), r, fx.e.zero(et)))
 	fx.lvals[x] = &LVal{kind: "pcell", ptr: r, ty: et}
@@ -1404,6 +1418,11 @@ func (fx *FnExec) doIndexAddr(st *State, x *ssa.IndexAddr) {
 		at := u.Elem().Underlying().(*types.Array)
 		base := fx.lvalOf(st, x.X)
 		fx.oblig(st, "bounds", "index", x.Pos(), And(Le(IntLit(0), idx), Lt(idx, IntLit(at.Len()))))
+		if base.kind == "harr" {
+			n := IntLit(at.Len())
+			fx.lvals[x] = &LVal{kind: "elem", slc: MkSlc(base.ptr, IntLit(0), n, n), idx: idx, ety: at.Elem(), ty: at.Elem()}
+			return
+		}
 		if base.kind != "cell" {
 			fx.fail("IndexAddr on %s array lvalue", base.kind)
 		}
@@ -1458,8 +1477,19 @@ func (fx *FnExec) doSlice(st *State, x *ssa.Slice) {
 		fx.oblig(st, "bounds", "slice", x.Pos(), And(Le(IntLit(0), lo), Le(lo, hi), Le(hi, SlcCap(v))))
 		fx.vals[x] = MkSlc(SlcBase(v), Add(SlcOff(v), lo), Sub(hi, lo), Sub(SlcCap(v), lo))
 	case *types.Pointer:
-		_ = u
-		fx.fail("slice of array pointer")
+		at := u.Elem().Underlying().(*types.Array)
+		base := fx.lvalOf(st, x.X)
+		if base.kind != "harr" {
+			fx.fail("slice of %s array pointer", base.kind)
+		}
+		n := IntLit(at.Len())
+		if x.High != nil {
+			hi = fx.val(st, x.High)
+		} else {
+			hi = n
+		}
+		fx.oblig(st, "bounds", "slice", x.Pos(), And(Le(IntLit(0), lo), Le(lo, hi), Le(hi, n)))
+		fx.vals[x] = MkSlc(base.ptr, lo, Sub(hi, lo), Sub(n, lo))
 	default:
 		fx.fail("Slice on %s", x.X.Type())
 	}
